@@ -137,6 +137,7 @@ pub fn replay_rows(tlc_out: &str, rep: &mut Report) {
     for payload in tlc_rows(tlc_out, "ROW") {
         let Ok(row) = serde_json::from_str::<J>(&payload) else { continue };
         rep.count("rows");
+        rep.ctx = Some(json!({"sub": "ana-replay", "row": payload}));
         let text = text_of(&row["text"]);
         let an = analyze(&text);
         rep.sample(json!({"file": text, "model_messages": row["msgs"].as_array().map(|a| a.iter().map(|m| json!([m["k"], m["fline"], m["err"]])).collect::<Vec<_>>())}));
